@@ -91,6 +91,32 @@ CHECKS["C08"] = dict(
          "and the reference verdict function ref_types in props/c08.py.",
     design="4/C08")
 
+CHECKS["C07"] = dict(
+    technique="model-based property testing: Hypothesis-generated gear populations and scripted random-address streams, "
+              "library sequence run against a frame-level IEC 62386-102 initialisation model, invariants over the end state",
+    text="1 200 (quick) / 16 000 (thorough) generated buses of 0..70 gear with arbitrary initial addresses (duplicates), "
+         "permitted subsets (None/empty/single/small/subset/all), readdress and dry-run, random draws from a 7-value pool "
+         "forcing clashes/restarts, optional unit that ignores PROGRAM or stays mute on VERIFY. Oracle on the models after "
+         "the run: bounded command count, all units out of initialisation, exactly min(participants, free permitted) "
+         "participants addressed, addresses permitted, pairwise distinct and distinct from addresses in use, "
+         "non-participants untouched, dry run changes nothing, ProgramShortAddressFailure iff a unit does not confirm. "
+         "Search evidence over a huge history space, not exhaustive.",
+    note="Trusted: harness/model_gear.py initialisation semantics (RANDOMISE/PROGRAM/VERIFY act while ENABLED or "
+         "WITHDRAWN; COMPARE/WITHDRAW only while ENABLED), which the repository's own dali/tests/fakes.py shares; "
+         "collisions are always framing errors; no 15-minute timer.",
+    design="4/C07")
+CHECKS["C11"] = dict(
+    technique="exhaustive/boundary enumeration and Hypothesis byte strings against hand-transcribed memory-map table and "
+              "reference decoders; round-trip for plain numbers/strings; image-level differential",
+    text="97 declared memory values x all raw strings of width 1-2 (complete), boundary sets and generated strings for "
+         "wider ones: from_list/check_raw/raw_to_value never raise and equal the reference decoder, MASK/TMASK/Invalid exactly "
+         "at the reference patterns; raw_to_value(value_to_raw(x)) == x for plain numbers and strings; bank, locations, access "
+         "type, width per table row; no overlap; lockable only with a lock byte; whole-image decode at the table's offsets.",
+    note="Trusted: harness/ref_memory.py (97 rows transcribed from IEC 62386-102 9.10 and DiiA 251-253 from memory; nine "
+         "single fields pinned to the library; five recorded disagreements where the statement is silent and both readings "
+         "are accepted).",
+    design="4/C11")
+
 NOT_BUILT_REASON = "check not built yet in this round (planned, see DESIGN.md section 4); not claimed until it is registered"
 
 
